@@ -12,9 +12,19 @@ import (
 	"strings"
 
 	"seehuhn.de/go/pdf"
+	"seehuhn.de/go/pdf/acroform"
+	"seehuhn.de/go/pdf/action"
+	annotdecode "seehuhn.de/go/pdf/annotation/decode"
+	"seehuhn.de/go/pdf/font/cmap"
+	"seehuhn.de/go/pdf/function"
+	"seehuhn.de/go/pdf/graphics/extract"
 	"seehuhn.de/go/pdf/nametree"
+	"seehuhn.de/go/pdf/numtree"
 	"seehuhn.de/go/pdf/outline"
+	"seehuhn.de/go/pdf/page"
+	"seehuhn.de/go/pdf/pagelabel"
 	"seehuhn.de/go/pdf/pagetree"
+	"seehuhn.de/go/pdf/walker"
 )
 
 func (k *wk) probe(w *Wiring, variant int) {
@@ -125,6 +135,34 @@ func (k *wk) probe(w *Wiring, variant int) {
 			return proj, nil
 		})
 	case "nametree":
+		if w.Inst == "num" {
+			k.call("probe/nametree:num", "", 1, &gets, func() ([]string, error) {
+				t, err := numtree.ExtractFromFile(g, pdf.NewReference(1, 0))
+				if err != nil {
+					return []string{"err"}, err
+				}
+				proj := []string{}
+				for key := range t.All() {
+					if len(proj) > 32 {
+						break
+					}
+					proj = append(proj, strconv.Itoa(int(key)))
+				}
+				return proj, nil
+			})
+			// the in-memory reader (the same guards, coded a second time) and the
+			// page label decoder built on it: their answers are sorted, not in walk
+			// order, so only the envelope applies
+			k.call("inmemory/numtree", "", 1, &gets, func() ([]string, error) {
+				_, err := numtree.ExtractInMemory(g, pdf.NewReference(1, 0))
+				return nil, err
+			})
+			k.call("pagelabels", "", 1, &gets, func() ([]string, error) {
+				_, err := pagelabel.Extract(g, pdf.NewReference(1, 0))
+				return nil, err
+			})
+			break
+		}
 		k.call(name, "", 1, &gets, func() ([]string, error) {
 			t, err := nametree.ExtractFromFile(g, pdf.NewReference(1, 0))
 			if err != nil {
@@ -138,6 +176,98 @@ func (k *wk) probe(w *Wiring, variant int) {
 				proj = append(proj, node(string(key)))
 			}
 			return proj, nil
+		})
+		k.call("inmemory/nametree", "", 1, &gets, func() ([]string, error) {
+			_, err := nametree.ExtractInMemory(g, pdf.NewReference(1, 0))
+			return nil, err
+		})
+	case "decode":
+		name = "probe/decode:" + w.Inst
+		k.call(name, "", 1, &gets, func() ([]string, error) {
+			cur := pdf.CursorAt(pdf.NewExtractor(g), nil)
+			ref := pdf.NewReference(startNum(), 0)
+			var err error
+			switch w.Inst {
+			case "xobject":
+				_, err = pdf.Decode(cur, ref, extract.XObject)
+			case "pattern":
+				_, err = pdf.Decode(cur, ref, extract.Pattern)
+			case "type3font":
+				_, err = pdf.Decode(cur, ref, extract.Font)
+			case "function":
+				_, err = pdf.Decode(cur, ref, function.Extract)
+			case "action":
+				_, err = pdf.Decode(cur, ref, action.Decode)
+			case "colorspace":
+				_, err = pdf.Decode(cur, ref, extract.ColorSpace)
+			case "tounicode":
+				_, err = pdf.Decode(cur, ref, cmap.ExtractToUnicode)
+			default:
+				return []string{"n/a"}, nil
+			}
+			if err != nil {
+				return []string{"err"}, err
+			}
+			return []string{"ok"}, nil
+		})
+	case "fields":
+		k.call(name, "", 1, &gets, func() ([]string, error) {
+			cur := pdf.CursorAt(pdf.NewExtractor(g), nil)
+			form, err := pdf.Decode(cur, r.GetMeta().Catalog.AcroForm, annotdecode.Form)
+			if err != nil {
+				return []string{"err"}, err
+			}
+			proj := []string{}
+			var rec func(ns []acroform.Node, depth int)
+			rec = func(ns []acroform.Node, depth int) {
+				for _, n := range ns {
+					if len(proj) > 32 || depth > 64 {
+						return
+					}
+					if grp, ok := n.(*acroform.Group); ok {
+						rec(grp.Children, depth+1)
+					} else {
+						proj = append(proj, strings.TrimPrefix(n.PartialName(), "f"))
+					}
+				}
+			}
+			if form != nil {
+				rec(form.Fields, 0)
+			}
+			return proj, nil
+		})
+	case "parents":
+		// the chain is walked when the page's annotations are decoded
+		k.call(name, "", 1, &gets, func() ([]string, error) {
+			it := pagetree.NewIterator(g)
+			cur := pdf.CursorAt(pdf.NewExtractor(g), nil)
+			for _, d := range it.All() {
+				_, err := pdf.Decode(cur, d, page.Decode)
+				if err != nil {
+					return []string{"err"}, err
+				}
+				break
+			}
+			return []string{"ok"}, it.Err
+		})
+	case "objwalk":
+		k.call(name, "", 1, &gets, func() ([]string, error) {
+			wk := walker.New(g)
+			proj := []string{}
+			n := 0
+			for _, obj := range wk.PreOrder() {
+				if n++; n > 100000 {
+					break
+				}
+				// (a stream is followed by its dictionary: count dictionaries only)
+				d, _ := obj.(pdf.Dict)
+				if v, ok := d["N"].(pdf.Integer); ok && len(proj) <= 32 {
+					if _, isCat := d["Pages"]; !isCat {
+						proj = append(proj, strconv.Itoa(int(v)))
+					}
+				}
+			}
+			return proj, wk.Err
 		})
 	case "filters":
 		k.call(name, "", 1, &gets, func() ([]string, error) {
@@ -157,8 +287,14 @@ func (k *wk) probe(w *Wiring, variant int) {
 	}
 }
 
-// expectedProj is the model's answer in the vocabulary of probe.
-func (w *Wiring) expectedProj() []string {
+// expectedProj is the model's answer in the vocabulary of probe; ok is false
+// when there is nothing to compare.
+func (w *Wiring) expectedProj() (proj []string, ok bool) {
+	p := w.expected()
+	return p, p != nil
+}
+
+func (w *Wiring) expected() []string {
 	switch w.Walker {
 	case "resolve", "length":
 		if len(w.Out) > 0 {
@@ -169,7 +305,14 @@ func (w *Wiring) expectedProj() []string {
 			return []string{"n/a"}
 		}
 		return w.Out
-	case "pages", "outline", "nametree":
+	case "decode":
+		if di := decodeInst(w.Inst); di == nil || !di.pure(w) {
+			return nil // the structure's decoder is not of the kind the wiring assumes: no answer to compare
+		}
+		return w.Out
+	case "parents":
+		return nil // the chain only feeds inherited attributes: termination is what is observed
+	case "pages", "outline", "nametree", "fields", "objwalk":
 		if len(w.Out) == 1 && w.Out[0] == "err" {
 			return w.Out
 		}
@@ -177,6 +320,9 @@ func (w *Wiring) expectedProj() []string {
 			return []string{}
 		}
 		return w.Out
+	}
+	if w.Out == nil {
+		return []string{}
 	}
 	return w.Out
 }
